@@ -5,6 +5,7 @@ import (
 	"fmt"
 	"os"
 	"path/filepath"
+	"sort"
 	"strings"
 	"time"
 
@@ -19,6 +20,22 @@ const modPath = "github.com/energomonitor/bisquitt"
 // overlayFor builds the overlay map for the given package directories.
 func overlayFor(pkgDirs []string) (map[string][]byte, error) {
 	ov := map[string][]byte{}
+	// harness files of one package may use the exported hooks of another
+	need := map[string]bool{}
+	for _, d := range pkgDirs {
+		need[d] = true
+		switch d {
+		case "gateway":
+			need["client"], need["util"] = true, true
+		case "client":
+			need["util"] = true
+		}
+	}
+	pkgDirs = nil
+	for d := range need {
+		pkgDirs = append(pkgDirs, d)
+	}
+	sort.Strings(pkgDirs)
 	shared, _ := filepath.Glob(filepath.Join(verifDir, "harness", "shared", "*.go.tmpl"))
 	if len(shared) == 0 {
 		return nil, fmt.Errorf("no shared harness templates found")
